@@ -239,8 +239,13 @@ class SubCheck(object):
         self.parent.fail(self.rid, '%s:%s:%s' % (self.source, rule, key), where, msg + ' [%s %s]' % (self.source, rule), witness=witness)
 
     def floor(self, name, count, floor):
-        if count < floor:
-            raise Broken('%s (run for %s): %s: rule instance count %d fell below the confirmed floor %d' % (self.source, self.rid, name, count, floor))
+        # recorded with the parent, like the parent's own floors: the analysis goes on (a violation found further on is still
+        # reported; without one the run ends as analysis-broken)
+        import re as _re
+        m = _re.match(r'(?:[A-Z]\d+ \(run for [^)]*\): )*(R\d+\.\d+)\b', name)
+        if self.only is not None and m and m.group(1) not in self.only:
+            return              # the instance count of a rule that is not run for this property
+        self.parent.floor('%s (run for %s): %s' % (self.source, self.rid, name), count, floor)
 
     def note(self, s):
         pass
